@@ -19,8 +19,8 @@ for n in names:
     if not os.path.exists(mp):
         continue
     meta = json.load(open(mp))
-    if meta.get("verif_result") == "OBSOLETE":
-        print(n, meta.get("property"), "OBSOLETE", flush=True)
+    if meta.get("verif_result") in ("OBSOLETE", "NOT-CLAIMED"):
+        print(n, meta.get("property"), meta.get("verif_result"), flush=True)
         continue
     prop = meta.get("property")
     extra = ONLY.get(n, [])
